@@ -26,6 +26,18 @@ WRAP_CALLS = {"pathlib.Path", "Path", "str", "list", "sorted", "tuple",
 HANDLE_CALLS = {"h5py.File", "new_dataset", "RTDCWriter", "load.new_dataset"}
 
 
+def _ends_with_tilde(e):
+    """the string expression certainly ends in '~'"""
+    s = const_str(e)
+    if s is not None:
+        return s.endswith("~")
+    if isinstance(e, ast.BinOp) and isinstance(e.op, ast.Add):
+        return _ends_with_tilde(e.right)
+    if isinstance(e, ast.JoinedStr) and e.values:
+        return _ends_with_tilde(e.values[-1])
+    return False
+
+
 class Roles:
     def __init__(self, func, seed, tuple_calls=None):
         """`tuple_calls`: {callee dotted name: (role, role, ...)} for calls
@@ -33,6 +45,9 @@ class Roles:
         self.func = func
         self.roles = {k: set(v) for k, v in seed.items()}
         self.tuple_calls = tuple_calls or {}
+        # name -> list of role sets: a collection of k-tuples whose
+        # positions carry different roles (``pairs.append((pt, pp))``)
+        self.elem_roles = {}
         self._fix()
 
     def of(self, expr):
@@ -74,10 +89,9 @@ class Roles:
             if isinstance(expr.func, ast.Attribute) \
                     and expr.func.attr in PATH_METHODS:
                 base = self.of(expr.func.value)
-                if expr.func.attr == "with_suffix" and expr.args:
-                    s = const_str(expr.args[0])
-                    if s is not None and s.endswith("~"):
-                        base = {"TEMP" if x == "OUT" else x for x in base}
+                if expr.func.attr in ("with_suffix", "with_name") \
+                        and expr.args and _ends_with_tilde(expr.args[0]):
+                    base = {"TEMP" if x == "OUT" else x for x in base}
                 return base
             return set()
         return set()
@@ -120,9 +134,35 @@ class Roles:
                 and len(target.elts) == 2 and it.args:
             return self._bind_iter(target.elts[1], it.args[0])
         if isinstance(it, ast.Call) and call_name(it) in (
-                "list", "tuple", "reversed", "iter") and len(it.args) == 1:
+                "list", "tuple", "reversed", "iter", "sorted") \
+                and len(it.args) == 1:
             return self._bind_iter(target, it.args[0])
+        if isinstance(it, ast.Name) and it.id in self.elem_roles \
+                and isinstance(target, (ast.Tuple, ast.List)) \
+                and len(target.elts) == len(self.elem_roles[it.id]):
+            ch = False
+            for t, rs in zip(target.elts, self.elem_roles[it.id]):
+                ch |= self._bind(t, set(rs))
+            return ch
         return self._bind(target, self.of(it))
+
+    def _note_elem(self, name, tup):
+        """`name` collects the tuple `tup`: remember roles per position"""
+        rs = [self.of(e) for e in tup.elts]
+        cur = self.elem_roles.get(name)
+        if cur is None:
+            self.elem_roles[name] = rs
+            return any(rs)
+        if len(cur) != len(rs):
+            # mixed arity: positions are meaningless, fall back to the union
+            self.elem_roles[name] = [set().union(*cur, *rs)] * 0
+            return False
+        ch = False
+        for c, r in zip(cur, rs):
+            if not r <= c:
+                c |= r
+                ch = True
+        return ch
 
     def _fix(self):
         for _ in range(20):
@@ -164,5 +204,10 @@ class Roles:
                         and isinstance(n.func, ast.Attribute):
                     for a in n.args:
                         changed |= self._bind(n.func.value, self.of(a))
+                    if last_attr(n) in ("append", "add") and n.args \
+                            and isinstance(n.args[-1], ast.Tuple) \
+                            and isinstance(n.func.value, ast.Name):
+                        changed |= self._note_elem(n.func.value.id,
+                                                   n.args[-1])
             if not changed:
                 return
